@@ -180,15 +180,15 @@ theorem c10_gather_scalar_sound (σ : Env) (es : List Sym) (vs : List Int) (i : 
     (hev : evalList σ es = some vs) (hi : gatherValues es true [i] = .ok r) :
     ∃ k v, resolveIndex vs.length i = some k ∧ vs[k]? = some v ∧ Agrees σ r (.scalar v) := by
   have hlen := evalList_length σ es vs hev
-  simp only [gatherValues, if_true] at hi
+  simp only [gatherValues, if_true, gatherGet] at hi
   cases hk : resolveIndex es.length i with
-  | none => simp [hk, Except.map] at hi
+  | none => simp [hk] at hi
   | some k =>
-    simp only [hk] at hi
+    simp only [hk, Option.bind_some] at hi
     cases he : es[k]? with
-    | none => simp [he, Except.map] at hi
+    | none => simp [he] at hi
     | some e =>
-      simp only [he, Except.map] at hi
+      simp only [he] at hi
       cases hi
       obtain ⟨v, hv, hee⟩ := evalList_getElem σ es vs k e hev he
       exact ⟨k, v, by rw [← hlen]; exact hk, hv, v, rfl, hee⟩
